@@ -1,6 +1,6 @@
 (* CorrForms.v -- shared correspondence entry for C04 and C08 (harness/src/forms.rs).
    case: [op; form; elem; N; pan; front; back; mode]
-   elem: 0 Tr (x Tr), 1 u32 (x u32), 2 Tr x u32, 3 u32 x Tr (zip only), 4 Cn (Clone only), 5 zero-sized;
+   elem: 0 Tr (x Tr), 1 u32 (x u32), 2 Tr x u32, 3 u32 x Tr (zip only), 4 Cn (Clone only), 5 zero-sized, 6 zero-sized with a counted destructor (generate / default only);
    mode (how the caller's code fails: own panic / destructor of an argument) does not change
    what the crate has to do *)
 From GA Require Import Base Codec Builder Iter Functional.
@@ -33,7 +33,7 @@ Definition run_forms (case : list Z) : list Z :=
     let tracked_r := (elem =? 0) || (elem =? 3) in       (* zip: the right input is drop-tracked *)
     let p := if pan <? 0 then None else Some (znat pan) in
     (* elem 5: zero-sized elements -- every identity reads 0 *)
-    let zst := elem =? 5 in
+    let zst := (elem =? 5) || (elem =? 6) in   (* 6: zero-sized AND drop-counted (the count is a direct oracle of the harness) *)
     let a := if zst then repeat 0 N else ids_from 0 N in
     let b := if zst then repeat 0 N else ids_from 100 N in
     let fresh_id := if zst then (fun (_ : nat) (_ : list Z) => 0) else fresh_id in
